@@ -190,25 +190,25 @@ func (c *Controller[R]) OpenGate(cfg GateConfig[R]) (g *Gate[R], t Transfer, err
 		return g, t, err
 	}
 
-	var exists bool
+	var existing *region[R]
 	for _, reg := range c.regions {
 		// Check if there is an existing region that overlaps with that time range.
 		if reg.timeRange.OverlapsWith(cfg.TimeRange) {
 			// v1 optimization: one writer can only overlap with one region at any given time.
-			if exists {
+			// Refuse before touching any region: opening the gate on the first match and
+			// failing on the second would leave that gate registered (and possibly in
+			// control) with nobody to release it.
+			if existing != nil {
 				err = errors.Newf("encountered multiple control regions for time range %s", cfg.TimeRange)
 				c.L.DPanic(err.Error())
 				return nil, t, err
 			}
-			// If there is an existing region, we open a new gate on that region.
-			if g, t, err = reg.open(cfg); err != nil {
-				return
-			}
-			exists = true
+			existing = reg
 		}
 	}
-	if exists {
-		return g, t, err
+	if existing != nil {
+		// If there is an existing region, we open a new gate on that region.
+		return existing.open(cfg)
 	}
 	var res R
 	if res, err = cfg.OpenResource(); err != nil {
